@@ -92,7 +92,21 @@ func init() {
 		if tier == "thorough" {
 			budget = 200
 		}
-		sel := selectSyn(conflictFreeRecs(sw, tier), func(rec *synRec) *GenOut { return rec.Plain }, budget)
+		all := conflictFreeRecs(sw, tier)
+		sel := selectSyn(all, func(rec *synRec) *GenOut { return rec.Plain }, budget)
+		// bodies of ten or more symbols (attribute indices with two digits) are always included
+		inSel := map[*synRec]bool{}
+		for _, r := range sel {
+			inSel[r] = true
+		}
+		for _, rec := range all {
+			for _, a := range rec.G.Alts {
+				if len(a.Body) >= 10 && !inSel[rec] {
+					inSel[rec] = true
+					sel = append(sel, rec)
+				}
+			}
+		}
 		var items []*corp.Item
 		for _, rec := range sel {
 			for _, mode := range []string{"explicit", "token", "none", "mixed"} {
